@@ -27,3 +27,15 @@ TEXT["C20"] = dict(
     level_note="trusts the harness's reference definitions, gcc's UBSan/ASan, and IEEE double "
                "arithmetic for the Aggregate tolerances (relative 1e-9 of the variance plus a "
                "rounding term scaled by range*magnitude)")
+TEXT["C18"] = dict(
+    engine="differential",
+    design_ref="DESIGN.md section 4, C18",
+    technique="runtime differential monitor vs std::string_view, exhaustive over a small byte alphabet incl. NUL/0x80/0xFF, under ASan+UBSan",
+    level_text="Every haystack of length <=5 and needle of length <=3 over {00,'a','b',80,FF} is combined "
+               "with every position/count argument (in range, just beyond, npos-1, npos) for every "
+               "StringView query that std::string_view also offers; value, sign, copied bytes and "
+               "exception kind must agree. A terminate handler attributes noexcept violations to the "
+               "call in progress. Random longer strings add depth. Exhaustive for the stated small space, "
+               "sampled beyond it.",
+    level_note="trusts libstdc++'s std::string_view as the reference where its behaviour is defined; "
+               "undefined std cases (remove_prefix beyond size, front() on empty) are not driven")
